@@ -358,8 +358,41 @@ def _without_counter_quotients(prog):
     return prog
 
 
+def _zero_flattened_assigns(prog):
+    """Assignments whose written right-hand side mentions a variable but is stored as the
+    constant 0 (pymbolic.flatten in Assign.__init__: 0*x -> 0)."""
+    from vf import exprdsl, stmtdsl
+    from pymbolic.mapper.flattener import flatten
+    out = []
+    for ph in prog["phases"]:
+        for op in pg.walk_ops(ph["ops"]):
+            if op[0] == "assign" and isinstance(op[1], str) and not op[3]:
+                vs = sorted(stmtdsl.dsl_vars(op[2]))
+                try:
+                    f = flatten(exprdsl.build(op[2]))
+                except Exception:  # noqa
+                    continue
+                if vs and isinstance(f, (int, float)) and f == 0:
+                    out.append((op, vs))
+    return out
+
+
+def _without_zero_flattening(prog):
+    """x - x instead of 0*x: the same value with the operand's shape, not touched by flatten."""
+    import copy
+    prog = copy.deepcopy(prog)
+    for op, vs in _zero_flattened_assigns(prog):
+        arr = [v for v in vs if v == op[1]] or vs
+        op[2] = ["+", ["v", arr[0]], ["*", ["c", -1], ["v", arr[0]]]]
+    return prog
+
+
 def classify(c, r, open_known):
     for k in open_known:
+        if k.get("matcher") == "zero_product_loses_shape" and c.get("kind") == "semantic" and _zero_flattened_assigns(c["prog"]):
+            s, cand, paths = check_program(_without_zero_flattening(c["prog"]), c.get("K", 2), 60)
+            if cand is None:
+                return k["id"]
         if k.get("matcher") == "integer_counter_quotient" and c.get("kind") == "semantic" and _has_counter_quotient(c["prog"]):
             # re-run with the known-defective quotients replaced: must agree
             s, cand, paths = check_program(_without_counter_quotients(c["prog"]), c.get("K", 2), 60)
